@@ -5,6 +5,8 @@
 
 #pragma once
 
+#include "verif_hook.h"
+
 namespace yakushima {
 
 /**
@@ -20,6 +22,7 @@ static T loadRelaxed(T& ptr) {
  */
 template<typename T>
 static T loadAcquireN(T& ref) {                     // NOLINT
+    YK_VP(k_load, &ref, sizeof(T), 0);
     return __atomic_load_n(&ref, __ATOMIC_ACQUIRE); // NOLINT
 }
 
@@ -42,6 +45,7 @@ static void storeRelaxed(T& ptr, T2 val) {
 template<typename T, typename T2>
 static void storeReleaseN(T& ptr, T2 val) {
     __atomic_store_n(&ptr, static_cast<T>(val), __ATOMIC_RELEASE); // NOLINT
+    YK_VP(k_store, &ptr, sizeof(T), 0);
 }
 
 template<class type>
@@ -54,6 +58,7 @@ void storeRelease(type* ptr, type* val) {
  */
 template<typename type>
 bool weakCompareExchange(type* ptr, type* expected, type* desired) {
+    YK_VP(k_cas, ptr, sizeof(type), 0);
     /**
      * Built-in Function: bool __atomic_compare_exchange_n
      * (type *ptr, type *expected, type desired, bool weak, int success_memorder, int
